@@ -1,6 +1,7 @@
 """C20 — triangle up-sampling tiles exactly; neighbourhoods and selections are faithful."""
 from __future__ import annotations
 
+import functools
 import itertools
 import json
 import math
@@ -20,8 +21,15 @@ H = F(H_FLOAT)
 # ------------------------------------------------------------------------------------------------
 # exact helpers
 # ------------------------------------------------------------------------------------------------
+@functools.lru_cache(maxsize=1 << 18)
+def _fq(v):
+    return F(v)
+
+
 def fr_tri(t):
-    return tuple((F(v[0]), F(v[1])) for v in t)
+    """JSON triangle ("p/q" strings) -> exact Fractions (parsing memoised: the same values recur in the
+    implementation's and the model's observation and from stage to stage)"""
+    return tuple((_fq(v[0]), _fq(v[1])) for v in t)
 
 
 def tris_from_array(a):
@@ -33,6 +41,17 @@ def tris_json(ts):
     return [[[q(v[0]), q(v[1])] for v in t] for t in ts]
 
 
+def tris_q(a):
+    """(N,3,2) float array -> JSON triangles of exact "p/q" strings; nan / inf survive as "nan" / "inf" so that
+    a set reporting non-finite values is judged (and reported) instead of crashing the observation"""
+    return [[[q(float(v[0])), q(float(v[1]))] for v in t] for t in np.asarray(a, dtype=float)]
+
+
+def int_or_nan(v):
+    v = float(v)
+    return int(v) if math.isfinite(v) else q(v)
+
+
 def orient(a, b, c):
     return (b[0] - a[0]) * (c[1] - a[1]) - (b[1] - a[1]) * (c[0] - a[0])
 
@@ -42,11 +61,22 @@ def area2(t):
 
 
 def scale_of(ts):
-    m = F(1)
+    """max(1, largest |coordinate|), exactly: the candidates are found in floats (monotone, so the exact maximum is
+    among the values whose float is largest), the result is the exact Fraction"""
+    best, bf = F(1), 1.0
     for t in ts:
         for v in t:
-            m = max(m, abs(v[0]), abs(v[1]))
-    return m
+            for c in v:
+                n, d = c.numerator, c.denominator
+                try:
+                    f = abs(n / d) if d != 1 else abs(n)
+                except OverflowError:
+                    f = float("inf")
+                if f >= bf:
+                    a = abs(c)
+                    if a > best:
+                        best, bf = a, f
+    return best
 
 
 class TriSet:
@@ -265,12 +295,119 @@ def np_bary_min(T, p):
 
 def shape_ref(s):
     """reference point of a shape, independently of the code (exact)"""
-    if s["kind"] in ("point", "circle", "flaky"):
+    if s["kind"] in ("point", "circle", "flaky", "scribbler"):
         return (F(s["x"]), F(s["y"]))
     if s["kind"] == "square":
         return ((F(s["left"]) + F(s["right"])) / 2, (F(s["top"]) + F(s["bottom"])) / 2)
     vs = [(F(a), F(b)) for a, b in s["vertices"]]
     return (sum(v[0] for v in vs) / len(vs), sum(v[1] for v in vs) / len(vs))
+
+
+# ------------------------------------------------------------------------------------------------
+# round 5/6: scaling by powers of two (decades stream), non-finite guard, array layouts
+# ------------------------------------------------------------------------------------------------
+NONFINITE = ("nan", "inf", "-inf")
+POINT_KINDS = ("point", "flaky", "scribbler")
+LEN1_KEYS = frozenset(["triangles", "view_triangles", "vertices", "view_vertices", "side", "x_offset", "y_offset",
+                       "refs", "sel_ref", "after_ref", "ref"])      # quantities of dimension length
+LEN2_KEYS = frozenset(["area"])                                     # ... of dimension length^2
+
+
+def has_nonfinite(o):
+    """does a (JSON-able) observation contain nan / inf, as "nan" / "inf" / "-inf" strings or as floats"""
+    try:
+        txt = json.dumps(o)
+    except (TypeError, ValueError):
+        return False
+    return any(w in txt for w in ('"nan"', '"inf"', '"-inf"', "NaN", "Infinity"))
+
+
+def _mul(v, s):
+    if isinstance(v, list):
+        return [_mul(x, s) for x in v]
+    if isinstance(v, str) and v in NONFINITE:
+        return v
+    return q(F(v) * s)
+
+
+def scale_obs(o, s):
+    """an observation (implementation's or model's) with every length multiplied by s and every area by s^2
+    (exact; integers, index lists, flags are left alone)"""
+    if isinstance(o, dict):
+        return {k: (_mul(v, s) if k in LEN1_KEYS else _mul(v, s * s) if k in LEN2_KEYS else scale_obs(v, s))
+                for k, v in o.items()}
+    if isinstance(o, list):
+        return [scale_obs(x, s) for x in o]
+    return o
+
+
+def scale_shape(sp, U):
+    o = dict(sp)
+    for k in ("x", "y", "radius", "top", "bottom", "left", "right"):
+        if k in o:
+            o[k] = q(F(o[k]) * U)
+    if "vertices" in o:
+        o["vertices"] = [[q(F(a) * U), q(F(b) * U)] for a, b in o["vertices"]]
+    return o
+
+
+def scale_world(w, U):
+    """the same world with every length multiplied by U (integer coordinates, index rows, flags unchanged)"""
+    o = json.loads(json.dumps(w))
+    for k in ("side", "x_offset", "y_offset"):
+        if k in o:
+            o[k] = q(F(o[k]) * U)
+    if "vertices" in o:
+        o["vertices"] = [[q(F(a) * U), q(F(b) * U)] for a, b in o["vertices"]]
+    if "limits" in o:
+        o["limits"] = {k: q(F(v) * U) for k, v in o["limits"].items()}
+    if "shape" in o:
+        o["shape"] = scale_shape(o["shape"], U)
+    if "probe" in o:
+        o["probe"] = [scale_shape(p, U) for p in o["probe"]]
+    for op in o.get("ops", []):
+        if not isinstance(op, dict):
+            continue
+        if "sel" in op:
+            op["sel"] = scale_shape(op["sel"], U)
+        if "edit" in op:
+            op["edit"]["to"] = [q(F(v) * U) for v in op["edit"]["to"]]
+        if "shape_edit" in op:
+            for k in ("x", "y", "radius"):
+                if k in op["shape_edit"]:
+                    op["shape_edit"][k] = q(F(op["shape_edit"][k]) * U)
+        if "fault" in op and "x" in op:
+            op["x"], op["y"] = q(F(op["x"]) * U), q(F(op["y"]) * U)
+    o["unit"] = q(F(o.get("unit", "1")) * U)
+    return o
+
+
+def lay(a, how):
+    """an equal-valued array in another memory layout: F = Fortran order, strided = every other row / column
+    of a larger buffer, neg = negative strides, wide = the leading columns of a wider C array, ro = read-only"""
+    a = np.asarray(a)
+    if how in (None, "C") or a.ndim == 0:
+        return a
+    if how == "ro":
+        b = a.copy()
+        b.setflags(write=False)
+        return b
+    if how == "F":
+        return np.asfortranarray(a)
+    if how == "neg":
+        return a[::-1].copy()[::-1]
+    if how == "T":     # a transposed view of the C-ordered transpose
+        return np.ascontiguousarray(a.transpose()).transpose()
+    if how == "wide":
+        big = np.zeros(a.shape[:-1] + (a.shape[-1] + 2,), dtype=a.dtype)
+        big[..., :a.shape[-1]] = a
+        return big[..., :a.shape[-1]]
+    if how == "strided":
+        big = np.zeros(tuple(2 * n + 1 for n in a.shape[:1]) + tuple(2 * n for n in a.shape[1:]), dtype=a.dtype)
+        sl = (slice(1, None, 2),) + tuple(slice(1, None, 2) for _ in a.shape[1:])
+        big[sl] = a
+        return big[sl]
+    raise ValueError(f"unknown layout {how}")
 
 
 # ------------------------------------------------------------------------------------------------
@@ -479,6 +616,13 @@ class C20(PropertyCheck):
         yield from self._magnitude_stream(tier, rng)
         yield from self._deep_stream(tier, rng)
         yield from self._history_stream(tier, rng)
+        # 9.-13. round-5/6 hardening (DESIGN §14): decades, ownership histories, containers / layouts,
+        #        constructor options, always-on large sets
+        yield from self._decades_stream(tier, rng)
+        yield from self._own_stream(tier, rng)
+        yield from self._layout_stream(tier, rng)
+        yield from self._options_stream(tier, rng)
+        yield from self._big_always(tier, rng)
 
     IDX_FORMS = ["int64", "int32", "list", "bool", "bool_list", "empty"]
 
@@ -869,12 +1013,458 @@ class C20(PropertyCheck):
             c = {k: v for k, v in c.items() if v is not None}
             yield c
 
+    # ------------------------------------------------------------------ round 5/6: generators (DESIGN §14)
+    # (R5-A / R5-E) DECADES.  An ordinary world with every length multiplied by 2^k (exact in binary floating
+    # point: the implementation's float results scale exactly too, so nothing new is demanded of the code) —
+    # judged in units of 2^k.  A tolerance / rounding / shortcut written in absolute terms (isclose, allclose,
+    # round(.., 8), `< 1e-12`) is harmless at unit scale and wrong a few decades away.  |k| <= 450 keeps every
+    # squared quantity (areas, barycentric denominators, r^2) a normal double (2^-1022 < 2^-900-12, 2^908 < 2^1023).
+    DEC_K_QUICK = [-450, -300, -150, -100, -64, -45, -40, -33, -30, -27, -24, -20, -17, -14, -10, -7, -4,
+                   4, 7, 10, 14, 17, 20, 24, 27, 30, 33, 40, 45, 64, 100, 150, 300, 450]
+    DEC_K_THOROUGH = sorted(set(range(-46, 47)) | {s * k for s in (1, -1) for k in
+                                                   (52, 60, 64, 80, 100, 120, 150, 200, 250, 300, 350, 400, 450)})
+    DEC_CHAINS = [["up"], ["nb"], ["up", "nb"], ["nb", "up"], ["up", "up"]]
+
+    @staticmethod
+    def _fx(v):
+        """the double nearest to an exact value, as an exact value (what the implementation will receive)"""
+        return F(float(v))
+
+    def _dec_probes(self, rng, ts, mode):
+        """probe shapes placed relative to the (unit-scale) triangles ts"""
+        good = [t for t in ts if area2(t) != 0]
+        if not good:
+            return []
+        t = good[rng.randrange(len(good))]
+        if mode == 0:
+            return self._hug_pair(t)
+        if mode == 1:
+            e = F(1, 2 ** rng.choice([20, 24, 26]))     # hugging an edge from inside / outside at 2^-20 .. 2^-26
+            return [self._pt(t, (F(1, 2) + 2 * e, F(1, 2) - 3 * e, e)), self._pt(t, (F(1, 4), F(3, 4) + e, -e)),
+                    self._inner_point(rng, t)]
+        p = self._inner_point(rng, t)
+        px, py = F(p["x"]), F(p["y"])
+        j = rng.choice([-40, -30, -20, -10, -3, 0, 2, 10, 20, 30, 40])    # the shape's own size: 2^j world units
+        r = F(2) ** j
+        kind = rng.choice(["circle", "square", "polygon"])
+        if kind == "circle":
+            sp = {"kind": "circle", "x": q(px), "y": q(py), "radius": q(r * rng.choice([1, 3]))}
+        elif kind == "square":
+            ha, hb = r * rng.choice([1, 3]), r * rng.choice([1, 3])
+            sp = {"kind": "square", "top": q(self._fx(py - ha)), "bottom": q(self._fx(py + ha)),
+                  "left": q(self._fx(px - hb)), "right": q(self._fx(px + hb))}
+        else:
+            k = rng.randint(3, 5)
+            offs = [(gen.dyadic(rng, -2, 2, 3), gen.dyadic(rng, -2, 2, 3)) for _ in range(k - 1)]
+            offs.append((-sum(o[0] for o in offs), -sum(o[1] for o in offs)))
+            sp = {"kind": "polygon", "vertices": [[q(self._fx(px + r * a)), q(self._fx(py + r * b))] for a, b in offs]}
+        return [sp, p]
+
+    def _dec_chain(self, rng, n, probes):
+        r = rng.random()
+        if r < 0.45:
+            return list(rng.choice(self.DEC_CHAINS))
+        if r < 0.7:
+            return [self._idx_op(rng, n, form=rng.choice(["int64", "list", "bool", "int32"])), rng.choice(["up", "nb"])]
+        pts = [p for p in probes if p["kind"] == "point"]
+        if not pts:
+            return ["up"]
+        return [{"sel": pts[-1]}, "up", {"sel": pts[-1]}] if r < 0.85 else ["nb", {"sel": pts[-1]}, "up"]
+
+    def _sliver_world(self, rng):
+        """a vertex-array set with NEARLY coincident vertices (2^-20 / 2^-23 apart — far outside 1e-9, inside
+        np.isclose / np.allclose defaults) and NEARLY degenerate triangles built on them"""
+        e = F(1, 2 ** rng.choice([20, 23]))
+        while True:
+            a = (gen.dyadic(rng, -6, 6, 2), gen.dyadic(rng, -6, 6, 2))
+            b = (a[0] + rng.choice([-3, -2, 2, 3]), a[1] + gen.dyadic(rng, -2, 2, 1))
+            c = (a[0] + gen.dyadic(rng, -2, 2, 1), a[1] + rng.choice([-4, -3, 3, 4]))
+            d = (c[0] + rng.choice([-2, 2]), c[1] + rng.choice([-1, 1]) * F(3, 2))
+            a2 = (a[0] + e, a[1]) if rng.random() < 0.5 else (a[0], a[1] - e)      # twin of a
+            if orient(a, b, c) != 0 and orient(a, c, d) != 0 and orient(b, c, d) != 0 and orient(a, a2, d) != 0 \
+                    and orient(a2, b, c) != 0:
+                break
+        nrm = (-(b[1] - a[1]), b[0] - a[0])
+        apex = ((a[0] + b[0]) / 2 + e * nrm[0] / 2, (a[1] + b[1]) / 2 + e * nrm[1] / 2)   # sliver over the edge ab
+        verts = [a, b, c, a2, apex, d]
+        idx = [[0, 1, 2], [3, 1, 2], [0, 1, 4], [0, 3, 5], [2, 5, 1]]
+        w = {"tag": "dec_sliver", "kind": "arr", "vertices": [[q(x), q(y)] for x, y in verts], "indices": idx, "ops": []}
+        ts = self._world_tris(w)
+        # probes: well inside the ordinary triangle, well inside the sliver, well inside the needle
+        w["probe"] = [self._pt(ts[0], (F(3, 8) + F(1, 64), F(1, 4) + F(1, 128), F(3, 8) - F(3, 128))),
+                      self._pt(ts[2], (F(1, 4) + F(1, 64), F(1, 4), F(1, 2) - F(1, 64))),
+                      self._pt(ts[3], (F(1, 4), F(1, 4) + F(1, 32), F(1, 2) - F(1, 32)))][:rng.randint(2, 3)]
+        w["ops"] = rng.choice([["up"], ["nb"], [{"idx": [2, 0, 3], "form": "list"}, "nb"], [{"idx": [1, 3], "form": "int64"}, "up"],
+                               [{"sel": w["probe"][1]}, "up"], []])
+        return w
+
+    def _far_world(self, rng):
+        """an ordinary world whose origin / centre is 2^8 .. 2^20 world units away from zero"""
+        j = rng.choice([8, 12, 16, 20])
+        ox = rng.choice([-1, 1]) * F(2) ** j * (1 + gen.dyadic(rng, 0, 3, 2))
+        oy = rng.choice([-1, 1]) * F(2) ** rng.choice([j, j, 0]) * (1 + gen.dyadic(rng, 0, 3, 2))
+        if rng.random() < 0.55:
+            w = self._rand_coord_world(rng, 2, 6)
+            w["coord_dtype"] = "int64"
+            w["x_offset"], w["y_offset"] = q(F(w["x_offset"]) + ox), q(F(w["y_offset"]) + oy)
+        else:
+            w = self._rand_arr_world(rng)
+            w["vertices"] = [[q(F(a) + ox), q(F(b) + oy)] for a, b in w["vertices"]]
+        w["tag"] = f"dec_far_{w['kind']}"
+        return w
+
+    def _hug_limits_world(self, rng, j, which, sign):
+        """for_limits_and_scale with one limit at m * (1 +- 2^-j) lattice units: int() must not be off by a hair"""
+        sc = rng.choice([F(1), F(1, 2), F(3, 2), F(3, 4)])
+        m = rng.choice([-1, 1, -1, 1, -2, 2, 3, -3])
+        f = 1 + sign * F(1, 2 ** j)
+        x0, y0 = gen.dyadic(rng, -2, 2, 2), gen.dyadic(rng, -2, 2, 2)
+        L = {"x_min": x0, "x_max": x0 + gen.pos_dyadic(rng, 1, 1, 2), "y_min": y0, "y_max": y0 + gen.pos_dyadic(rng, 1, 1, 2)}
+        v = sc / 2 * m * f if which[0] == "x" else self._fx(H * sc * m * f)
+        L[which] = v
+        if which == "x_min":
+            L["x_max"] = v + gen.pos_dyadic(rng, 1, 1, 2)
+        elif which == "x_max":
+            L["x_min"] = v - gen.pos_dyadic(rng, 1, 1, 2)
+        elif which == "y_min":
+            L["y_max"] = self._fx(v + gen.pos_dyadic(rng, 1, 1, 2))
+        else:
+            L["y_min"] = self._fx(v - gen.pos_dyadic(rng, 1, 1, 2))
+        if not all(exact_as_float(x) for x in L.values()):
+            return None
+        return {"tag": "dec_limits_hug", "kind": "coord", "limits": {**{k: q(x) for k, x in L.items()}, "scale": q(sc)},
+                "ops": rng.choice([[], ["nb"], ["up"]])}
+
+    def _decades_stream(self, tier, rng):
+        quick = tier == "quick"
+        ks = self.DEC_K_QUICK if quick else self.DEC_K_THOROUGH
+        n = 0
+        for k in ks:
+            U = F(2) ** k
+            for rcp in range(3 if quick else 5):
+                mode = (n + rcp) % 3
+                n += 1
+                if rcp == 0:      # coordinate set
+                    w = self._rand_coord_world(rng, 1, 6)
+                    w["coord_dtype"] = rng.choice(["int64", "int64", "int32", "float64"])
+                elif rcp == 1 or rcp == 3:    # vertex-array set (every other one float32 where float32 holds it)
+                    w = self._rand_arr_world(rng)
+                    if abs(k) <= 40 and n % 4 == 0:
+                        w["vert_form"] = "float32"
+                elif n % 3 == 0:  # sets from limits and scale (both representations)
+                    x0, y0 = gen.dyadic(rng, -3, 3, 2), gen.dyadic(rng, -3, 3, 2)
+                    w = {"tag": "dec", "kind": rng.choice(["coord", "arr"]), "limits":
+                         {"x_min": q(x0), "x_max": q(x0 + gen.pos_dyadic(rng, 1, 1, 2)), "y_min": q(y0),
+                          "y_max": q(y0 + gen.pos_dyadic(rng, 1, 1, 2)), "scale": q(rng.choice([F(1, 2), F(1), F(3, 4)]))},
+                         "ops": []}
+                elif n % 3 == 1:
+                    w = self._sliver_world(rng)
+                else:
+                    w = self._far_world(rng)
+                    if abs(k) > 150:      # offsets 2^20 further out: keep the squares inside the double range
+                        continue
+                if abs(k) <= 30 and n % 5 == 0:
+                    w["int_scalars"] = True
+                if "limits" in w:
+                    if w["kind"] == "coord":
+                        sc = F(w["limits"]["scale"])
+                        ts = [coord_triangle(int(2 * F(w["limits"]["x_min"]) / sc) + 1,
+                                             int(F(w["limits"]["y_min"]) / (H * sc)) + 1, sc, F(0), F(0), False)]
+                        w["probe"] = self._dec_probes(rng, ts, mode)
+                    w["ops"] = rng.choice([["up"], ["nb"], []])
+                elif w["tag"] != "dec_sliver":
+                    ts = self._world_tris(w)
+                    if w.get("vert_form") != "float32":      # (float32 sets: chains only, see the design note)
+                        w["probe"] = self._dec_probes(rng, ts, mode)
+                        w["probe_pos"] = rng.choice(["first", "last"])
+                    w["ops"] = self._dec_chain(rng, len(ts), w.get("probe", []))
+                    if w.get("vert_form") == "float32":
+                        w["ops"] = [o for o in w["ops"][:1]]
+                if w["tag"] in ("hist", "dec"):
+                    w["tag"] = f"dec_{w['kind']}" + ("_limits" if "limits" in w else "") + \
+                               ("_f32" if w.get("vert_form") == "float32" else "")
+                yield scale_world(w, U)
+        # one ingredient only: the far / sliver / shape-size worlds at unit scale and a few decades
+        for i in range(24 if quick else 240):
+            w = [self._far_world, self._sliver_world][i % 2](rng)
+            if "probe" not in w:
+                ts = self._world_tris(w)
+                w["probe"] = self._dec_probes(rng, ts, i % 3)
+                w["ops"] = self._dec_chain(rng, len(ts), w["probe"])
+            yield scale_world(w, F(2) ** rng.choice([0, 0, -12, 12, -36, 36]))
+        # limits hugging an integer number of lattice units
+        for j in (20, 24, 27):
+            for which in ("x_min", "x_max", "y_min", "y_max"):
+                for sign in (1, -1):
+                    for _ in range(1 if quick else 6):
+                        w = self._hug_limits_world(rng, j, which, sign)
+                        if w is not None:
+                            yield scale_world(w, F(2) ** rng.choice([0, 0, -30, 30, -200, 200]))
+        # near-duplicate twins (one parameter moved by 2^-18 relative) and worlds sharing shape objects, at decades
+        for i in range(10 if quick else 100):
+            a = self._rand_coord_world(rng) if i % 2 == 0 else self._rand_arr_world(rng)
+            ts = self._world_tris(a)
+            t = ts[rng.randrange(len(ts))]
+            if area2(t) == 0:
+                continue
+            a["probe"] = self._hug_pair(t)
+            a["ops"] = self._hist_chain(rng, len(ts))
+            b = self._perturbed(rng, a)
+            U = F(2) ** rng.choice([-40, -27, -20, -14, 14, 20, 27, 40, 120, -120])
+            yield {"tag": "dec_twins", "kind": "multi", "worlds": [scale_world(a, U), scale_world(b, U)],
+                   "order": ["seq", "rev", "interleave"][i % 3], "share_shapes": True, "share_root": False}
+
+    # (R5-B) OWNERSHIP histories: observe -> the caller scribbles over every array it was handed / it handed in ->
+    # the same world is rebuilt from fresh equal inputs / derived again -> observe; three rounds (a process-wide
+    # memo handing out its own buffers is often wrong only from the second or third request on).
+    OWN_CHAINS = [["up"], ["nb"], ["up", "nb"], ["nb", "up"]]
+
+    def _own_stream(self, tier, rng):
+        quick = tier == "quick"
+        for i in range(36 if quick else 300):
+            r = i % 6
+            if r == 4:     # the constructors from limits and scale / from a grid
+                x0, y0 = gen.dyadic(rng, -3, 3, 2), gen.dyadic(rng, -3, 3, 2)
+                w = {"tag": "own", "kind": ["coord", "arr"][(i // 6) % 2], "limits":
+                     {"x_min": q(x0), "x_max": q(x0 + 1), "y_min": q(y0), "y_max": q(y0 + 1),
+                      "scale": q(rng.choice([F(1, 2), F(1), F(3, 4)]))}, "ops": list(rng.choice(self.OWN_CHAINS))}
+                if w["kind"] == "coord":
+                    sc = F(w["limits"]["scale"])
+                    t = coord_triangle(int(2 * x0 / sc) + 1, int(y0 / (H * sc)) + 1, sc, F(0), F(0), False)
+                    w["probe"] = [self._inner_point(rng, t)]
+            elif r == 5 and (i // 6) % 2:
+                w = {"tag": "own", "kind": "arr", "grid": {"shape": [3, 3], "ps": "1"}, "ops": list(rng.choice(self.OWN_CHAINS))}
+            else:
+                w = self._rand_coord_world(rng) if r % 2 == 0 else self._rand_arr_world(rng)
+                ts = self._world_tris(w)
+                t = ts[rng.randrange(len(ts))]
+                if area2(t) == 0:
+                    continue
+                pt = self._inner_point(rng, t)
+                w["probe"] = [pt] if i % 3 else [pt, self._shape_for(rng, ts)]
+                w["probe_pos"] = "first" if i % 2 else "last"
+                sub = self._idx_op(rng, len(ts), form=rng.choice(["int64", "int32", "bool"]))
+                w["ops"] = [list(rng.choice(self.OWN_CHAINS)), [sub, "up"], ["nb", sub], [{"sel": pt}, "up", {"sel": pt}],
+                            [sub, "nb", {"sel": pt}]][(i // 2) % 5]
+            yield {"tag": f"own_{w['kind']}" + ("_limits" if "limits" in w else "_grid" if "grid" in w else ""),
+                   "kind": "own", "world": w, "rounds": 3, "scribble": "nan" if i % 3 else "inc"}
+        # a user shape whose mask edits the array it is handed in place: the set must be unaffected
+        for i in range(24 if quick else 200):
+            w = self._rand_coord_world(rng) if i % 3 != 2 else self._rand_arr_world(rng)
+            ts = self._world_tris(w)
+            t = ts[rng.randrange(len(ts))]
+            if area2(t) == 0:
+                continue
+            pt = self._inner_point(rng, t)
+            scr = {"kind": "scribbler", "x": pt["x"], "y": pt["y"], "how": "nan" if i % 2 else "shift"}
+            w["probe"] = [scr, self._inner_point(rng, t)] if i % 4 else [scr]
+            w["probe_pos"] = "first" if i % 4 != 3 else "last"
+            w["ops"] = [["up"], ["nb"], [{"sel": scr}, "up"], [{"idx": [0], "form": "list"}, "nb"], [{"sel": scr}, "nb", {"sel": scr}],
+                        []][i % 6]
+            w["tag"] = f"own_callback_{w['kind']}"
+            yield w
+
+    # (R5-C) CONTAINERS / LAYOUTS: equal-valued inputs handed over as Fortran-ordered / transposed / strided /
+    # negatively strided / read-only arrays, narrower or unsigned integer dtypes, float32, other containers for
+    # polygon vertices, an autoarray structure as vertex table, structures built from the parts of structures.
+    LAYOUTS = ["F", "strided", "neg", "ro", "wide", "T"]
+
+    def _layout_stream(self, tier, rng):
+        quick = tier == "quick"
+        coords6 = [[0, 0], [1, 0], [1, 1], [2, 1], [3, 2], [0, 1]]
+        coords6n = [[0, 0], [1, 0], [1, 1], [-2, 1], [3, -2], [0, -1]]
+        verts6 = [["0", "0"], ["4", "0"], ["0", "4"], ["4", "4"], ["-2", "1"], ["1", "-3"]]
+        idx6 = [[0, 1, 2], [1, 3, 2], [4, 0, 2], [5, 1, 0], [4, 5, 3]]
+        chains = [["up"], ["nb"], [{"idx": [4, 1, 1], "form": "strided"}, "up"], [{"idx": [0, 3], "form": "neg"}, "nb"],
+                  [{"idx": [2, 2, 0], "form": "ro"}], [{"idx": [1, 2], "form": "bool_ro"}, "up"],
+                  [{"idx": [0, 1, 4], "form": "bool_strided"}, "nb"], [{"idx": [3, 0], "form": "uint16"}, "up"],
+                  [{"idx": [1, 4], "form": "int16"}], [{"idx": [2], "form": "uint8"}, "nb"]]
+        k = 0
+        for lay_ in self.LAYOUTS:
+            for dt in ("int64", "int32", "int16", "int8", "float64", "float32", "uint16", "uint8"):
+                for rep_ in range(1 if quick else 3):
+                    unsigned = dt.startswith("u")
+                    c = self._coord_case("lay_coord", coords6 if unsigned else coords6n, [F(2), F(1), F(3, 2)][k % 3],
+                                         [F(1), F(0), F(-5, 4)][k % 3], F(-3) if k % 2 else F(1, 2), k % 4 < 2,
+                                         chains[(k + rep_) % len(chains)])
+                    c["coord_dtype"], c["layout"] = dt, {"coords": lay_}
+                    ts = self._world_tris(c)
+                    c["probe"] = [self._inner_point(rng, ts[k % len(ts)])]
+                    if k % 3 == 0:
+                        c["mask_layout"] = self.LAYOUTS[(k // 3) % len(self.LAYOUTS)]
+                    k += 1
+                    yield c
+        k = 0
+        for lv in [None] + self.LAYOUTS:
+            for li in [None] + self.LAYOUTS:
+                if lv is None and li is None:
+                    continue
+                if quick and lv is not None and li is not None and (self.LAYOUTS.index(lv) + self.LAYOUTS.index(li)) % 3:
+                    continue
+                vform = ["float64", "int64", "float32", "int32", "int16"][k % 5]
+                idt = ["int64", "int32", "int16", "uint16", "uint8", "uint32"][k % 6]
+                c = {"tag": "lay_arr", "kind": "arr", "vertices": verts6, "indices": idx6, "ops": chains[k % len(chains)],
+                     "vert_form": vform, "index_dtype": idt, "layout": {"verts": lv, "indices": li}}
+                if vform != "float32":
+                    ts = self._world_tris(c)
+                    c["probe"] = [self._inner_point(rng, ts[k % len(ts)])]
+                    if k % 3 == 1:
+                        c["mask_layout"] = self.LAYOUTS[(k // 3) % len(self.LAYOUTS)]
+                k += 1
+                yield c
+        # the same set handed over in another container in the MIDDLE of a chain
+        sames = ["wv", "wv:F", "wv:strided", "wv:ro", "wv:neg", "wv:grid", "wv:f32", "rebuild", "rebuild:F", "rebuild:strided",
+                 "rebuild:ro", "soup", "soup:F", "soup:strided"]
+        for k, sm in enumerate(sames * (1 if quick else 4)):
+            tail = [["up"], ["nb"], [{"idx": [1, 0], "form": "list"}, "nb"], ["up", "nb"]][k % 4]
+            c = {"tag": "lay_same_arr", "kind": "arr", "vertices": verts6, "indices": idx6,
+                 "ops": [[{"same": sm}] + tail, ["up", {"same": sm}, "nb"], [{"idx": [4, 1, 2], "form": "list"}, {"same": sm}] + tail][k % 3]}
+            if k >= len(sames):
+                w = self._rand_arr_world(rng)
+                c["vertices"], c["indices"] = w["vertices"], w["indices"]
+                c["ops"] = json.loads(json.dumps(c["ops"]).replace("[4, 1, 2]", "[1, 0, 1]").replace("wv:f32", "wv:T"))
+            ts = self._world_tris(c)
+            c["probe"] = [self._inner_point(rng, ts[k % len(ts)])]
+            yield c
+        for k, sm in enumerate(["rebuild", "rebuild:F", "rebuild:strided", "rebuild:ro", "rebuild:neg", "rebuild:wide"] * (1 if quick else 4)):
+            w = self._rand_coord_world(rng)
+            tail = [["up"], ["nb"], [{"idx": [0], "form": "list"}, "nb"], ["up", "nb"]][k % 4]
+            w["ops"] = [[{"same": sm}] + tail, ["up", {"same": sm}, "nb"], ["nb", {"same": sm}, "up"]][k % 3]
+            ts = self._world_tris(w)
+            if area2(ts[0]) != 0:
+                w["probe"] = [self._inner_point(rng, ts[0])]
+            w["tag"] = "lay_same_coord"
+            yield w
+        # polygon vertices in other containers (lists, tuples, ndarrays in several layouts, integer ndarrays)
+        for k, pf in enumerate(["tuple", "lists", "nd", "nd_F", "nd_strided", "nd_ro", "nd_neg"] * (2 if quick else 8)):
+            w = self._rand_coord_world(rng) if k % 2 else self._rand_arr_world(rng)
+            ts = self._world_tris(w)
+            for _ in range(8):
+                sp = self._shape_for(rng, ts)
+                if sp["kind"] == "polygon":
+                    break
+            else:
+                continue
+            sp["poly_form"] = pf
+            if k % 4 == 3 and all(F(a).denominator == 1 and F(b).denominator == 1 for a, b in sp["vertices"]):
+                w["int_scalars"] = True
+            w["shape"], w["ops"], w["tag"] = sp, rng.choice([[], ["up"], ["nb"]]), "lay_polygon"
+            yield w
+
+    # (R5-F) OPTIONS: the constructor signatures are introspected; every option is omitted (default), passed
+    # explicitly at its default, in its falsy / numpy-scalar forms and at non-default values; non-default values
+    # of every pair of options are crossed with each other.
+    def _options_stream(self, tier, rng):
+        import inspect
+        from autoarray.structures.triangles.coordinate_array import CoordinateArrayTriangles
+
+        quick = tier == "quick"
+        try:
+            sig = inspect.signature(CoordinateArrayTriangles.__init__).parameters
+            lsig = inspect.signature(CoordinateArrayTriangles.for_limits_and_scale).parameters
+        except (TypeError, ValueError):
+            return
+        want = {"side_length": 1.0, "x_offset": 0.0, "y_offset": 0.0, "flipped": False}
+        # only options that exist with the documented default can be omitted; anything else is always passed
+        omittable = [n for n, d in want.items() if n in sig and sig[n].default is not inspect.Parameter.empty
+                     and sig[n].default == d and type(sig[n].default) is type(d)]
+        if "coordinates" not in sig or any(n not in sig for n in want):
+            return      # another constructor interface: nothing this stream knows how to vary
+        values = {"side_length": [F(1), F(1, 2), F(3), F(5, 8)], "x_offset": [F(0), F(3, 8), F(-2), F(1)],
+                  "y_offset": [F(0), F(-5, 8), F(2), F(1)], "flipped": [False, True]}
+        coords = [[0, 0], [1, 0], [2, 1], [-1, -1], [-2, 1]]
+        chains = [["up"], ["nb"], [{"idx": [3, 0, 0], "form": "list"}, "up"], ["up", "nb"], ["nb", "up"], []]
+        k = 0
+
+        def case(vals, ctor):
+            nonlocal k
+            c = self._coord_case("opt_coord", coords, vals["side_length"], vals["x_offset"], vals["y_offset"],
+                                 vals["flipped"], chains[k % len(chains)])
+            c["ctor"] = {kk: v for kk, v in ctor.items() if v}
+            c["int_scalars"] = bool(ctor.get("ints"))
+            ts = self._world_tris(c)
+            c["probe"] = [self._inner_point(rng, ts[k % len(ts)])]
+            c["probe_pos"] = "first" if k % 2 else "last"
+            k += 1
+            return c
+
+        base = {n: values[n][0] for n in want}
+        names = list(want)
+        # (i) all defaults omitted / explicit / in falsy and numpy-scalar forms
+        for omit in ([], omittable, omittable[:1], omittable[1:3], omittable[3:]):
+            for zf in ("float", "int", "negzero", "np", "npint"):
+                for ff in ("bool", "int", "np"):
+                    if quick and (len(omit) + ["float", "int", "negzero", "np", "npint"].index(zf) + ["bool", "int", "np"].index(ff)) % 3:
+                        continue
+                    yield case(base, {"omit": list(omit), "zero_form": zf, "flipped_form": ff})
+        # (ii) each non-default value of one option x each non-default value of another, the rest omitted
+        for a in range(len(names)):
+            for b in range(a + 1, len(names)):
+                for va in values[names[a]][1:]:
+                    for vb in values[names[b]][1:]:
+                        vals = {**base, names[a]: va, names[b]: vb}
+                        omit = [n for n in omittable if n not in (names[a], names[b])]
+                        yield case(vals, {"omit": omit if k % 3 else [], "zero_form": ["int", "float", "negzero"][k % 3],
+                                          "flipped_form": ["np", "int", "bool"][k % 3], "ints": k % 2,
+                                          "scalar_form": "np" if k % 4 == 1 else None})
+        # (iii) for_limits_and_scale: scale omitted (its default) / explicit, extra keywords, int arguments
+        ldef = lsig.get("scale")
+        can_omit_scale = ldef is not None and ldef.default == 1.0
+        takes_kw = any(p.kind is inspect.Parameter.VAR_KEYWORD for p in lsig.values())
+        for i in range(12 if quick else 60):
+            x0, y0 = gen.dyadic(rng, -3, 3, 2), gen.dyadic(rng, -3, 3, 2)
+            sc = F(1) if i % 3 != 2 else rng.choice([F(1, 2), F(3, 4)])
+            c = {"tag": "opt_limits", "kind": "coord" if i % 4 != 3 else "arr", "limits":
+                 {"x_min": q(x0), "x_max": q(x0 + gen.pos_dyadic(rng, 1, 1, 2)), "y_min": q(y0),
+                  "y_max": q(y0 + gen.pos_dyadic(rng, 1, 1, 2)), "scale": q(sc)}, "ops": rng.choice([[], ["up"], ["nb"]]),
+                 "int_scalars": i % 2 == 0, "ctor": {}}
+            if c["kind"] == "coord" and sc == 1 and can_omit_scale and i % 3 == 0:
+                c["ctor"]["omit"] = ["scale"]
+            if takes_kw and i % 2:
+                c["ctor"]["junk"] = True
+            yield c
+
+    # (R5-E) always-on LARGE sets (beyond 2^16 rows): judged by the vectorised statement only
+    def _big_always(self, tier, rng):
+        n = 65536 + 3 + rng.randrange(0, 64)
+        want = [("coord", "nb")] if tier == "quick" else [("coord", "nb"), ("arr", "nb"), ("coord", "up"), ("arr", "up")]
+        if tier == "quick":
+            m = 33000 + rng.randrange(0, 64)
+            for c in self._big_cases(rng, m, 0, lean=True):
+                if c["rep"] == "arr" and c["ops"] == ["up"] and "limits" not in c["recipe"]:
+                    yield {**c, "tag": "big_always_arr"}
+                    break
+        seen = set()
+        for c in self._big_cases(rng, n, 0, lean=True):
+            key = (c["rep"], c["ops"][0] if c["ops"] and isinstance(c["ops"][0], str) else None)
+            if key in want and key not in seen and "limits" not in c["recipe"]:
+                seen.add(key)
+                yield {**c, "tag": f"big_always_{c['rep']}"}
+        if tier != "quick":     # more than 2^16 unique vertices
+            for c in self._big_cases(rng, 2 * 65536 + 9000 + rng.randrange(0, 64), 0, lean=True):
+                if c["ops"] == ["nb"] and "limits" not in c["recipe"]:
+                    yield {**c, "tag": f"big_always_{c['rep']}"}
+
     # ------------------------------------------------------------------ implementation
-    def _build(self, aa_mod, case):
+    COORD_DTYPES = {"int32": np.int32, "float64": float, "float32": np.float32, "int16": np.int16,
+                    "int8": np.int8, "uint16": np.uint16, "uint8": np.uint8}
+    INDEX_DTYPES = {"int32": np.int32, "int16": np.int16, "uint16": np.uint16, "uint8": np.uint8, "uint32": np.uint32}
+
+    def _build(self, aa_mod, case, keep=None):
+        """the triangle set of a case.  `layout` (memory layout of the arrays handed over), `ctor` (which
+        constructor options are omitted / in which falsy or numpy-scalar form they are passed) are round-5
+        variants of EQUAL-VALUED inputs; `keep` collects the arrays handed to the constructor."""
         from autoarray.structures.triangles.array import ArrayTriangles
         from autoarray.structures.triangles.coordinate_array import CoordinateArrayTriangles
 
         ints = case.get("int_scalars", False)
+        layout = case.get("layout") or {}
+        ctor = case.get("ctor") or {}
+
+        def rec(a):
+            if keep is not None:
+                keep.append(a)
+            return a
 
         def fl(v):
             fr = F(v)
@@ -883,31 +1473,56 @@ class C20(PropertyCheck):
         if case["kind"] == "arr":
             if "limits" in case:
                 L = case["limits"]
+                kw = {"max_containing_size": 10} if ctor.get("junk") else {}   # passed on to, and ignored by, __init__
                 return ArrayTriangles.for_limits_and_scale(
                     y_min=fl(L["y_min"]), y_max=fl(L["y_max"]), x_min=fl(L["x_min"]), x_max=fl(L["x_max"]),
-                    scale=fl(L["scale"]))
+                    scale=fl(L["scale"]), **kw)
             if "grid" in case:
                 g = case["grid"]
                 return ArrayTriangles.for_grid(grid=aa_mod.Grid2D.uniform(
                     shape_native=tuple(g["shape"]), pixel_scales=float(F(g["ps"]))))
             vform = case.get("vert_form", "float64")
-            if vform == "int64":
-                verts = np.array([[int(F(a)), int(F(b))] for a, b in case["vertices"]], dtype=np.int64)
+            if vform in ("int64", "int32", "int16"):
+                verts = np.array([[int(F(a)), int(F(b))] for a, b in case["vertices"]],
+                                 dtype={"int64": np.int64, "int32": np.int32, "int16": np.int16}[vform])
             else:
                 verts = np.array([[float(F(a)), float(F(b))] for a, b in case["vertices"]],
                                  dtype=np.float32 if vform == "float32" else float)
-            idt = {"int32": np.int32}.get(case.get("index_dtype"), np.int64)
-            return ArrayTriangles(indices=np.array(case["indices"], dtype=idt).reshape(-1, 3),
-                                  vertices=verts.reshape(-1, 2))
+            idt = self.INDEX_DTYPES.get(case.get("index_dtype"), np.int64)
+            kw = {}
+            if ctor.get("junk"):      # AbstractTriangles.__init__ takes and ignores **kwargs
+                kw["max_containing_size"] = 10
+            return ArrayTriangles(indices=rec(lay(np.array(case["indices"], dtype=idt).reshape(-1, 3),
+                                                  layout.get("indices"))),
+                                  vertices=rec(lay(verts.reshape(-1, 2), layout.get("verts"))), **kw)
         if "limits" in case:
             L = case["limits"]
-            return CoordinateArrayTriangles.for_limits_and_scale(
-                x_min=fl(L["x_min"]), x_max=fl(L["x_max"]), y_min=fl(L["y_min"]), y_max=fl(L["y_max"]),
-                scale=fl(L["scale"]))
-        cdt = {"int32": np.int32, "float64": float}.get(case.get("coord_dtype"), np.int64)
-        return CoordinateArrayTriangles(
-            coordinates=np.array(case["coords"], dtype=cdt).reshape(-1, 2), side_length=fl(case["side"]),
-            x_offset=fl(case["x_offset"]), y_offset=fl(case["y_offset"]), flipped=case["flipped"])
+            kw = dict(x_min=fl(L["x_min"]), x_max=fl(L["x_max"]), y_min=fl(L["y_min"]), y_max=fl(L["y_max"]),
+                      scale=fl(L["scale"]))
+            for name in ctor.get("omit", []):
+                kw.pop(name)
+            if ctor.get("junk"):      # for_limits_and_scale takes and ignores further keywords (**_)
+                kw["max_containing_size"] = 10
+            return CoordinateArrayTriangles.for_limits_and_scale(**kw)
+        cdt = self.COORD_DTYPES.get(case.get("coord_dtype"), np.int64)
+        kw = dict(coordinates=rec(lay(np.array(case["coords"], dtype=cdt).reshape(-1, 2), layout.get("coords"))),
+                  side_length=fl(case["side"]), x_offset=fl(case["x_offset"]), y_offset=fl(case["y_offset"]),
+                  flipped=case["flipped"])
+        for name in ctor.get("omit", []):          # the generator only omits values equal to the signature default
+            kw.pop(name)
+        ff = ctor.get("flipped_form")
+        if ff and "flipped" in kw:
+            kw["flipped"] = {"int": int, "np": np.bool_, "bool": bool}[ff](kw["flipped"])
+        zf = ctor.get("zero_form")
+        for name in ("x_offset", "y_offset"):
+            if zf and name in kw and kw[name] == 0:
+                kw[name] = {"int": 0, "float": 0.0, "negzero": -0.0, "np": np.float64(0.0), "npint": np.int64(0)}[zf]
+        sf = ctor.get("scalar_form")               # numpy scalars instead of Python floats
+        if sf == "np":
+            for name in ("side_length", "x_offset", "y_offset"):
+                if name in kw and not isinstance(kw[name], int):
+                    kw[name] = np.float64(kw[name])
+        return CoordinateArrayTriangles(**kw)
 
     @staticmethod
     def _routes_comparable(ops):
@@ -924,27 +1539,39 @@ class C20(PropertyCheck):
         return True
 
     @staticmethod
-    def _apply(obj, op):
+    def _apply(obj, op, keep=None):
         if op == "up":
             return obj.up_sample()
         if op == "nb":
             return obj.neighborhood()
         form = op.get("form", "int64")
         idx = [int(i) for i in op["idx"]]
-        if form in ("bool", "bool_list"):
+
+        def rec(a):
+            if keep is not None:
+                keep.append(a)
+            return a
+
+        if form in ("bool", "bool_list", "bool_ro", "bool_strided"):
             n = len(np.asarray(obj.triangles))
             m = [i in set(idx) for i in range(n)]
-            return obj.for_indexes(np.array(m, dtype=bool) if form == "bool" else m)
+            if form == "bool_list":
+                return obj.for_indexes(m)
+            return obj.for_indexes(rec(lay(np.array(m, dtype=bool), {"bool_ro": "ro", "bool_strided": "strided"}.get(form))))
         if form == "list":
             return obj.for_indexes(idx)
         if form == "empty":
             return obj.for_indexes([])
-        return obj.for_indexes(np.array(idx, dtype=np.int32 if form == "int32" else np.int64))
+        if form in ("strided", "neg", "ro"):       # round 5: equal-valued index arrays in other layouts
+            return obj.for_indexes(rec(lay(np.array(idx, dtype=np.int64), form)))
+        dt = {"int32": np.int32, "int16": np.int16, "uint16": np.uint16, "uint8": np.uint8, "uint32": np.uint32,
+              "int8": np.int8}.get(form, np.int64)
+        return obj.for_indexes(rec(np.array(idx, dtype=dt)))
 
     @staticmethod
     def _obs_arr(a):
         tr = np.asarray(a.triangles, dtype=float)
-        return {"triangles": tris_json(tris_from_array(tr)), "n": int(len(a)),
+        return {"triangles": tris_q(tr), "n": int(len(a)),
                 "area": q(float(a.area)) if len(tr) else "0",
                 "vertices": [[q(float(v[0])), q(float(v[1]))] for v in np.asarray(a.vertices, dtype=float)],
                 "indices": [[int(i) for i in r] for r in np.asarray(a.indices)]}
@@ -954,14 +1581,14 @@ class C20(PropertyCheck):
         co = np.asarray(c.coordinates)
         tr = np.asarray(c.triangles, dtype=float)
         view = c.with_vertices(c.vertices)
-        return {"coords": [[int(v[0]), int(v[1])] for v in co], "coords_integral":
+        return {"coords": [[int_or_nan(v[0]), int_or_nan(v[1])] for v in co], "coords_integral":
                 bool(np.all(co == np.round(co))),
                 "side": q(float(c.side_length)), "x_offset": q(float(c.x_offset)),
                 "y_offset": q(float(c.y_offset)), "flipped": bool(c.flipped),
-                "triangles": tris_json(tris_from_array(tr)),
+                "triangles": tris_q(tr),
                 "flip_mask": [bool(b) for b in np.asarray(c.flip_mask)],
                 "area": q(float(c.area)), "n": int(len(c)),
-                "view_triangles": tris_json(tris_from_array(np.asarray(view.triangles, dtype=float))),
+                "view_triangles": tris_q(np.asarray(view.triangles, dtype=float)),
                 "view_vertices": [[q(float(v[0])), q(float(v[1]))] for v in np.asarray(view.vertices)]}
 
     # ------------------------------------------------------------------ round 4: worlds, probes, histories
@@ -997,6 +1624,36 @@ class C20(PropertyCheck):
             cls._flaky_cls = FlakyPoint
         return cls._flaky_cls
 
+    _scribbler_cls = None
+
+    @classmethod
+    def _scribbler(cls):
+        """a user-defined shape (a Point) whose mask, after computing its answer, edits the array it was handed
+        IN PLACE (recentres the triangles on itself, or blanks them) — a user callback is free to do that with
+        its own argument; the triangle set must not be affected"""
+        if cls._scribbler_cls is None:
+            from autoarray.structures.triangles import shape as sh
+
+            class ScribblePoint(sh.Point):
+                def __init__(self, x, y, how="nan"):
+                    super().__init__(x, y)
+                    self.how = how
+
+                def mask(self, triangles):
+                    out = np.array(super().mask(triangles), copy=True)
+                    if isinstance(triangles, np.ndarray) and triangles.dtype.kind == "f":
+                        try:
+                            if self.how == "nan":
+                                triangles[...] = np.nan
+                            else:
+                                triangles -= np.array([self.x, self.y], dtype=triangles.dtype)
+                        except ValueError:      # a read-only array: the owner protected its buffer
+                            pass
+                    return out
+
+            cls._scribbler_cls = ScribblePoint
+        return cls._scribbler_cls
+
     def _shape_obj(self, s, case, pool=None):
         """the library's shape object for a shape spec; `pool` (spec -> object) makes worlds of one history
         share the very same object"""
@@ -1011,15 +1668,32 @@ class C20(PropertyCheck):
             shp = sh.Point(x=fl(s["x"]), y=fl(s["y"]))
         elif s["kind"] == "flaky":
             shp = self._flaky()(fl(s["x"]), fl(s["y"]), int(s.get("fail_on", 1)))
+        elif s["kind"] == "scribbler":
+            shp = self._scribbler()(fl(s["x"]), fl(s["y"]), s.get("how", "nan"))
         elif s["kind"] == "circle":
             shp = sh.Circle(x=fl(s["x"]), y=fl(s["y"]), radius=fl(s["radius"]))
         elif s["kind"] == "square":
             shp = sh.Square(top=fl(s["top"]), bottom=fl(s["bottom"]), left=fl(s["left"]), right=fl(s["right"]))
         else:
-            shp = sh.Polygon(vertices=[[fl(a), fl(b)] if ints else (fl(a), fl(b)) for a, b in s["vertices"]])
+            vs = [[fl(a), fl(b)] if ints else (fl(a), fl(b)) for a, b in s["vertices"]]
+            pf = s.get("poly_form")     # round 5: the same vertices in other containers
+            if pf == "tuple":
+                vs = tuple(tuple(v) for v in vs)
+            elif pf == "lists":
+                vs = [list(v) for v in vs]
+            elif pf in ("nd", "nd_F", "nd_strided", "nd_ro", "nd_neg"):
+                vs = lay(np.array(vs), {"nd": None}.get(pf, pf[3:]))
+            shp = sh.Polygon(vertices=vs)
         if pool is not None:
             pool[key] = shp
         return shp
+
+    @staticmethod
+    def _drv_shape(s):
+        """the shape as the model driver knows it (user subclasses of Point are points; container form dropped)"""
+        if s["kind"] in POINT_KINDS:
+            return {"kind": "point", "x": s["x"], "y": s["y"]}
+        return {k: v for k, v in s.items() if k != "poly_form"}
 
     @staticmethod
     def _decoy(o, is_arr, mode):
@@ -1051,15 +1725,46 @@ class C20(PropertyCheck):
         for f in ((props, siblings) if mode == "a" else (siblings, props)):
             f()
 
-    def _apply2(self, obj, op, case, probes, pool):
+    def _same(self, obj, kind):
+        from autoarray.structures.triangles.array import ArrayTriangles
+        from autoarray.structures.triangles.coordinate_array import CoordinateArrayTriangles
+
+        is_arr = isinstance(obj, ArrayTriangles)
+        how = kind.split(":")[1] if ":" in kind else None
+        if kind.startswith("wv"):          # with_vertices of an equal-valued vertex table
+            v = np.asarray(obj.vertices)
+            if how == "grid":              # an autoarray structure, as a ray-traced grid would be
+                vv = load_autoarray().Grid2DIrregular(values=np.array(v, dtype=float))
+            elif how == "f32":             # the generator only asks for this where float32 holds the values
+                vv = v.astype(np.float32)
+            else:
+                vv = lay(v, how)
+            return obj.with_vertices(vv)
+        if kind.startswith("rebuild"):     # a structure built from the parts of another structure
+            if is_arr:
+                return ArrayTriangles(indices=lay(obj.indices, how), vertices=lay(obj.vertices, how))
+            return CoordinateArrayTriangles(coordinates=lay(obj.coordinates, how), side_length=obj.side_length,
+                                            x_offset=obj.x_offset, y_offset=obj.y_offset, flipped=obj.flipped)
+        if kind.startswith("soup"):        # every triangle with its own three vertex rows (no sharing)
+            T = np.asarray(obj.triangles)
+            return ArrayTriangles(indices=lay(np.arange(3 * len(T)).reshape(-1, 3), how),
+                                  vertices=lay(T.reshape(-1, 2), how))
+        raise ValueError(f"unknown identity step {kind}")
+
+    def _apply2(self, obj, op, case, probes, pool, keep=None):
         """one history step: (object after the step, extra observations of the step)"""
         if not isinstance(op, dict) or "idx" in op:
-            return self._apply(obj, op), {}
+            return self._apply(obj, op, keep), {}
+        if "same" in op:     # round 5: a step that hands the SAME set over in another container / layout
+            return self._same(obj, op["same"]), {}
         if "sel" in op:      # the refinement step of a point solver: keep the triangles containing the shape
             shp = self._shape_obj(op["sel"], case, pool)
             idx = np.asarray(obj.containing_indices(shp))
-            return obj.for_indexes(idx), {"sel_idx": [int(i) for i in idx],
-                                          "sel_ref": [q(float(shp.x)), q(float(shp.y))]}
+            extra = {"sel_idx": [int(i) for i in idx], "sel_ref": [q(float(shp.x)), q(float(shp.y))]}
+            new = obj.for_indexes(idx)
+            if keep is not None:
+                keep.append(idx)
+            return new, extra
         if "fault" in op:    # a call that raises in the middle; the same object is used afterwards
             kind, raised, extra = op["fault"], None, {}
             n = len(np.asarray(obj.triangles))
@@ -1094,21 +1799,67 @@ class C20(PropertyCheck):
             return obj, {}
         raise ValueError(f"unknown op {op}")
 
-    def _world(self, aa, case, pool, root=None):
+    @staticmethod
+    def _scribble(a, how):
+        """edit an array IN PLACE as its owner may: floats -> nan (or +1), integers -> 0 (or +1), flags -> inverted.
+        A read-only array is left alone (whoever handed it out protected it)."""
+        if not isinstance(a, np.ndarray) or a.size == 0:
+            return
+        try:
+            if a.dtype.kind == "f":
+                a[...] = np.nan if how == "nan" else a + 1.0
+            elif a.dtype.kind in "iu":
+                a[...] = 0 if how == "nan" else a + 1
+            elif a.dtype.kind == "b":
+                a[...] = ~a
+        except ValueError:
+            pass
+
+    @classmethod
+    def _scribble_obj(cls, o, how):
+        """scribble over every array the object hands out (all fetched first, then edited)"""
+        arrs = []
+        for name in ("coordinates", "triangles", "flip_mask", "flip_array", "vertices", "indices", "scaling_factors",
+                     "centres", "means"):
+            try:
+                arrs.append(getattr(o, name))
+            except Exception:  # noqa: BLE001
+                pass
+        for a in arrs:
+            cls._scribble(a, how)
+
+    def _world(self, aa, case, pool, root=None, own=None):
         """generator running one world (one triangle set + its chain of steps), yielding after every step;
-        returns the observation.  Probe shapes are queried with containing_indices at EVERY stage."""
+        returns the observation.  Probe shapes are queried with containing_indices at EVERY stage.
+        `own` (round 5, ownership histories): {"how", "objs", "inputs"} — every index array handed to a step
+        and every array returned by a query is scribbled over as soon as the call has returned, and the
+        objects of all stages / the arrays handed to the constructor are collected for the caller."""
         is_arr = case["kind"] == "arr"
         ob = self._obs_arr if is_arr else self._obs_coord
-        obj = root if root is not None else self._build(aa, case)
+        keep0 = [] if own is not None else None
+        obj = root if root is not None else self._build(aa, case, keep0)
+        if own is not None:
+            own["inputs"] = keep0
+            own["objs"] = [obj]
         if case.get("readonly") and root is None:
             for name in (("vertices", "indices") if is_arr else ("coordinates",)):
                 np.asarray(getattr(obj, name)).setflags(write=False)
         probes = [self._shape_obj(s, case, pool) for s in case.get("probe", [])]
         ppos, decoy = case.get("probe_pos", "last"), case.get("decoy")
 
+        mlay = case.get("mask_layout")
+
         def contain(o):
-            return {"containing": [[int(i) for i in np.asarray(o.containing_indices(p))] for p in probes],
-                    "refs": [[q(float(p.x)), q(float(p.y))] for p in probes]}
+            out = {"containing": [], "refs": [[q(float(p.x)), q(float(p.y))] for p in probes]}
+            for p in probes:
+                r = o.containing_indices(p)
+                out["containing"].append([int(i) for i in np.asarray(r)])
+                if own is not None:
+                    self._scribble(r, own["how"])
+            if mlay:   # round 5: the shape's mask called directly on an equal-valued array in another layout
+                T = lay(np.array(o.triangles), mlay)
+                out["containing_direct"] = [[int(i) for i in np.where(np.asarray(p.mask(T)))[0]] for p in probes]
+            return out
 
         def observe(o):
             st = {}
@@ -1124,7 +1875,12 @@ class C20(PropertyCheck):
         stages = [observe(obj)]
         yield
         for op in case["ops"]:
-            obj, extra = self._apply2(obj, op, case, probes, pool)
+            keep = [] if own is not None else None
+            obj, extra = self._apply2(obj, op, case, probes, pool, keep)
+            if own is not None:
+                own["objs"].append(obj)
+                for a in keep:
+                    self._scribble(a, own["how"])
             st = observe(obj)
             st.update(extra)
             stages.append(st)
@@ -1136,7 +1892,7 @@ class C20(PropertyCheck):
             arr = start.with_vertices(start.vertices)
             for op in case["ops"]:
                 arr = self._apply(arr, op)
-            obs["array_route"] = {"triangles": tris_json(tris_from_array(np.asarray(arr.triangles, dtype=float))),
+            obs["array_route"] = {"triangles": tris_q(np.asarray(arr.triangles, dtype=float)),
                                   "area": q(float(arr.area)), "n": int(len(arr))}
         if "shape" in case:
             shp = self._shape_obj(case["shape"], case, pool)
@@ -1162,7 +1918,33 @@ class C20(PropertyCheck):
             return self._run_big(aa, case)
         if case["kind"] == "multi":
             return self._run_multi(aa, case)
+        if case["kind"] == "own":
+            return self._run_own(aa, case)
         return self._drain(self._world(aa, case, {}))
+
+    def _run_own(self, aa, case):
+        """ownership history (round 5, R5-B): per round — build the world from FRESH equal inputs and observe the
+        chain (phase a); scribble over every array of every derived object (and, already during the run, over
+        every index array handed in and every query result handed out); derive again from the same root and
+        observe (phase b); scribble over the root's arrays and the arrays handed to the constructor as well.
+        Every observation must be that of a fresh world."""
+        w, how = case["world"], case.get("scribble", "nan")
+        rounds = []
+        for _ in range(int(case.get("rounds", 3))):
+            own = {"how": how}
+            a = self._drain(self._world(aa, w, {}, own=own))
+            root, inputs = own["objs"][0], own["inputs"]
+            for o in own["objs"][1:]:
+                if o is not root:
+                    self._scribble_obj(o, how)
+            own2 = {"how": how}
+            b = self._drain(self._world(aa, w, {}, root=root, own=own2))
+            for o in own2["objs"][1:] + [root]:
+                self._scribble_obj(o, how)
+            for arr in inputs or []:
+                self._scribble(arr, how)
+            rounds.append([a, b])
+        return {"rounds": rounds}
 
     def _run_multi(self, aa, case):
         """several worlds in one history: executed one after the other, in reverse, or interleaved step by
@@ -1575,19 +2357,22 @@ class C20(PropertyCheck):
                     reqs.append({"op": "c20.coord_chain", "coord": anchor, "h": q(H), "ops": mops})
             elif slot[0] == "probe":
                 reqs.append({"op": "c20.shape_mask", "triangles": obs["stages"][slot[1]]["triangles"],
-                             "shape": self._probe_specs(case, slot[1])[slot[2]]})
+                             "shape": self._drv_shape(self._probe_specs(case, slot[1])[slot[2]])})
             elif slot[0] == "after":
                 op = case["ops"][slot[1] - 1]
                 reqs.append({"op": "c20.shape_mask", "triangles": obs["stages"][slot[1]]["triangles"],
                              "shape": {"kind": "point", "x": op["x"], "y": op["y"]}})
             else:
                 reqs.append({"op": "c20.shape_mask", "triangles": obs["stages"][-1]["triangles"],
-                             "shape": case["shape"]})
+                             "shape": self._drv_shape(case["shape"])})
         return reqs
 
     def model_requests(self, case, impl_obs):
         if "err" in impl_obs or case["kind"] == "big":
             return []      # "big" cases: no model comparison, the vectorised oracle alone judges them
+        if case["kind"] == "own":   # the model's value for a FRESH world, asked once (from the first observation)
+            first = impl_obs["rounds"][0][0]
+            return [] if has_nonfinite(first) else self._world_requests(case["world"], first)
         if case["kind"] == "multi":
             return [r for w, o in zip(case["worlds"], impl_obs["worlds"]) for r in self._world_requests(w, o)]
         return self._world_requests(case, impl_obs)
@@ -1612,6 +2397,8 @@ class C20(PropertyCheck):
         return out
 
     def model_obs(self, case, responses):
+        if case["kind"] == "own":
+            return self._world_model_obs(case["world"], responses)
         if case["kind"] == "multi":
             out, a = [], 0
             for w in case["worlds"]:
@@ -1644,9 +2431,30 @@ class C20(PropertyCheck):
                 if d:
                     return f"world {i}: {d}"
             return None
+        if case["kind"] == "own":
+            seen = []
+            for r, phases in enumerate(impl_obs["rounds"]):
+                for ph, o in zip("ab", phases):
+                    if o in seen:       # identical to an observation already compared
+                        continue
+                    seen.append(o)
+                    d = self._world_compare(case["world"], o, model_obs, cmp)
+                    if d:
+                        return f"round {r}{ph} ({self.OWN_PHASE[ph]}): {d}"
+            return None
         return self._world_compare(case, impl_obs, model_obs, cmp)
 
+    OWN_PHASE = {"a": "world rebuilt from fresh inputs after the earlier arrays were edited in place by their owner",
+                 "b": "derived again from the same root after the derived objects' arrays were edited in place"}
+
     def _world_compare(self, case, impl_obs, model_obs, cmp):
+        if has_nonfinite(impl_obs):
+            return "$: the observation contains non-finite values (nan / inf)"
+        if "unit" in case:      # decades stream: judge in units of the world's own scale 2^k (exact rescaling)
+            inv = 1 / F(case["unit"])
+            d = self._world_compare({k: v for k, v in scale_world(case, inv).items() if k != "unit"},
+                                    scale_obs(impl_obs, inv), scale_obs(model_obs, inv), cmp)
+            return d and f"{d} [lengths in units of the world's scale {self._unit_str(case['unit'])}]"
         is_arr = case["kind"] == "arr"
         if "limits_coords" in model_obs:
             if self._limits_band(case):
@@ -1694,11 +2502,13 @@ class C20(PropertyCheck):
             specs = self._probe_specs(case, k) if "containing" in si else []
             for i, spec in enumerate(specs):
                 band = self._band(ti, spec, (F(si["refs"][i][0]), F(si["refs"][i][1])))
-                a = [x for x in si["containing"][i] if x not in band]
                 b = [x for x in model_obs["probes"][f"{k}:{i}"]["indices"] if x not in band]
-                d = cmp.diff(a, b, f"{p}.containing[{i}]")
-                if d:
-                    return d
+                for key in ("containing", "containing_direct"):
+                    if key in si:
+                        a = [x for x in si[key][i] if x not in band]
+                        d = cmp.diff(a, b, f"{p}.{key}[{i}]")
+                        if d:
+                            return d
             if "after" in si:
                 op = case["ops"][k - 1]
                 spec = {"kind": "point", "x": op["x"], "y": op["y"]}
@@ -1778,6 +2588,17 @@ class C20(PropertyCheck):
                 if not ok:
                     return False, f"world {i} (history order {case.get('order', 'seq')}): {d}"
             return True, ""
+        if case["kind"] == "own":
+            seen = []
+            for r, phases in enumerate(obs["rounds"]):
+                for ph, o in zip("ab", phases):
+                    if o in seen:
+                        continue
+                    seen.append(o)
+                    ok, d = self._world_oracle(case["world"], o)
+                    if not ok:
+                        return False, f"round {r}{ph} ({self.OWN_PHASE[ph]}): {d}"
+            return True, ""
         return self._world_oracle(case, obs)
 
     def _oracle_contain(self, ts, s, got, label):
@@ -1795,7 +2616,7 @@ class C20(PropertyCheck):
                     continue
                 return False, (f"{label}: (d) triangle {i} {[tuple(map(float, v)) for v in t]} contains the "
                                f"{s['kind']}'s reference point {tuple(map(float, ref))} but is not reported")
-            if s["kind"] in ("point", "flaky") and not ins and i in gs and margin > 8 * TOL:
+            if s["kind"] in POINT_KINDS and not ins and i in gs and margin > 8 * TOL:
                 return False, f"{label}: (d) triangle {i} reported as containing a point outside it"
         return True, ""
 
@@ -1830,7 +2651,24 @@ class C20(PropertyCheck):
                            f"(in units side/4, h*side/2: unexpected {extra}, missing {miss})")
         return True, ""
 
+    @staticmethod
+    def _unit_str(u):
+        u = F(u)
+        k = u.numerator.bit_length() - 1 if u >= 1 else -(u.denominator.bit_length() - 1)
+        return f"2^{k}" if F(2) ** k == u else str(u)
+
     def _world_oracle(self, case, obs):
+        if has_nonfinite(obs):
+            for k, st in enumerate(obs.get("stages", [])):
+                if has_nonfinite(st):
+                    return False, (f"stage {k} (after {self._ops_str(case['ops'][:k])}): the set reports non-finite "
+                                   f"(nan / inf) triangles, vertices or area for finite inputs")
+            return False, "the observation contains non-finite values for finite inputs"
+        if "unit" in case:      # decades stream: the statement in units of the world's own scale 2^k (exact rescaling)
+            inv = 1 / F(case["unit"])
+            ok, d = self._world_oracle({k: v for k, v in scale_world(case, inv).items() if k != "unit"},
+                                       scale_obs(obs, inv))
+            return ok, (d if ok else f"{d} [lengths in units of the world's scale {self._unit_str(case['unit'])}]")
         is_arr = case["kind"] == "arr"
         stages = obs["stages"]
         for k, st in enumerate(stages):
@@ -1865,6 +2703,21 @@ class C20(PropertyCheck):
                 vv = [tuple(v) for v in st["view_vertices"]]
                 if len(set(vv)) != len(vv):
                     return False, f"stage {k}: duplicate rows in the unique vertex table"
+            if k == 0 and not is_arr and "coords" in case:
+                # "arbitrary integer coordinates, side lengths, offsets and flip states": the set built from these
+                # parameters describes the lattice triangles OF THESE parameters (not merely some consistent set)
+                exp0 = [coord_triangle(x, y, F(case["side"]), F(case["x_offset"]), F(case["y_offset"]), case["flipped"])
+                        for x, y in case["coords"]]
+                if len(exp0) != len(ts) or any(set_diff([a], [b], tol, "") for a, b in zip(ts, exp0)):
+                    return False, (f"stage 0: the set built from side={float(F(case['side']))!r}, offsets=("
+                                   f"{float(F(case['x_offset']))!r}, {float(F(case['y_offset']))!r}), flipped={case['flipped']} "
+                                   f"does not describe the lattice triangles of these parameters (it reports side="
+                                   f"{float(F(st['side']))!r}, offsets=({float(F(st['x_offset']))!r}, "
+                                   f"{float(F(st['y_offset']))!r}), flipped={st['flipped']})")
+            if k == 0 and is_arr and "vertices" in case and "indices" in case:
+                vs0 = [(F(a), F(b)) for a, b in case["vertices"]]
+                if [tuple(vs0[i] for i in r) for r in case["indices"]] != ts:
+                    return False, "stage 0: the triangles of the set are not vertices[indices] of the arrays it was built from"
             if k == 0 and not is_arr and "limits" in case:
                 # "produced from limits and scale": the triangles have side `scale` on the un-shifted lattice
                 if F(st["side"]) != F(case["limits"]["scale"]) or F(st["x_offset"]) != 0 or F(st["y_offset"]) != 0 \
@@ -1875,10 +2728,13 @@ class C20(PropertyCheck):
             # round 4: every probe shape, at every stage of the history
             if "containing" in st:
                 for i, spec in enumerate(self._probe_specs(case, k)):
-                    ok, d = self._oracle_contain(ts, spec, st["containing"][i],
-                                                 f"stage {k} (after {self._ops_str(case['ops'][:k])}) probe {i}")
-                    if not ok:
-                        return False, d
+                    for key in ("containing", "containing_direct"):
+                        if key in st:
+                            ok, d = self._oracle_contain(ts, spec, st[key][i],
+                                                         f"stage {k} (after {self._ops_str(case['ops'][:k])}) probe {i}"
+                                                         + (" (mask called directly)" if key != "containing" else ""))
+                            if not ok:
+                                return False, d
             if k == 0:
                 continue
             op = case["ops"][k - 1]
@@ -1889,11 +2745,11 @@ class C20(PropertyCheck):
                 if not ok:
                     return False, d
                 op = {"idx": st["sel_idx"]}
-            if isinstance(op, dict) and ("fault" in op or "shape_edit" in op):
+            if isinstance(op, dict) and ("fault" in op or "shape_edit" in op or "same" in op):
                 # the step leaves the set alone: the same object must still describe the same triangles
                 if len(ts) != len(prev) or set_diff(ts, prev, ptol, ""):
                     return False, (f"stage {k}: the set changed although the step ({op}) does not alter it "
-                                   f"(fault-then-reuse / shape edit)")
+                                   f"(fault-then-reuse / shape edit / same set in another container)")
                 if not is_arr and st["coords"] != stages[k - 1]["coords"]:
                     return False, f"stage {k}: coordinates changed by a step that does not alter the set"
                 if "after" in st:
@@ -1929,7 +2785,8 @@ class C20(PropertyCheck):
                     return False, f"(a) up_sample: total area {float(a0)} -> {float(a1)}"
                 q4 = sorted(abs(area2(t)) for t in ts)
                 p4 = sorted(abs(area2(t)) / 4 for t in prev for _ in range(4))
-                if any(abs(x - y) > 8 * ptol * max(1, scale_of(ts)) for x, y in zip(q4, p4)):
+                qtol = 8 * ptol * max(1, scale_of(ts))
+                if any(abs(x - y) > qtol for x, y in zip(q4, p4)):
                     return False, "(a) up_sample: children are not one quarter of their parents' areas"
                 newv = [v for t in ts for v in t]
                 for t in prev:
@@ -1981,6 +2838,8 @@ class C20(PropertyCheck):
     def nontrivial(self, case, obs):
         if "err" in obs:
             return False
+        if case["kind"] == "own":
+            return self.nontrivial(case["world"], obs["rounds"][0][0])
         if case["kind"] == "big":
             return obs.get("n0", 0) > 0 and len(case["ops"]) + ("shape" in case) > 0
         if case["kind"] == "multi":
@@ -1994,6 +2853,10 @@ class C20(PropertyCheck):
 
     def shrink(self, case):
         if case["kind"] == "big":
+            return
+        if case["kind"] == "own":     # the history (rounds, scribbling) is the point: only the world shrinks
+            for w2 in self.shrink(case["world"]):
+                yield {**case, "world": w2}
             return
         if case["kind"] == "multi":
             ws = case["worlds"]
@@ -2029,12 +2892,16 @@ class C20(PropertyCheck):
         c = {k: v for k, v in case.items() if k != "_impl"}
         if case.get("kind") == "multi":
             return {**c, "worlds": [self.sample_view(w) for w in case["worlds"]]}
+        if case.get("kind") == "own":
+            return {**c, "world": self.sample_view(case["world"])}
         for key in ("coords", "vertices", "indices"):
             if isinstance(c.get(key), list) and len(c[key]) > 400:
                 c[key] = {"n": len(c[key]), "first": c[key][:8], "last": c[key][-4:]}
         return c
 
     def theorems_for(self, case):
+        if case["kind"] == "own":
+            return self.theorems_for(case["world"])
         if case["kind"] == "multi":
             return sorted({t for w in case["worlds"] for t in self.theorems_for(w)})
         if case["kind"] == "big":
